@@ -484,8 +484,13 @@ class LangConv:
             return set().union(*hits)
         return None
 
+    @staticmethod
+    def via(log, classes, label):
+        for c in classes:
+            log.setdefault("via", {}).setdefault(c, set()).add(label)
+
     def cls(self, node, scope, kind, log):
-        """Effective classes of an expression; `log` collects (removed classes, notes)."""
+        """Effective classes of an expression; `log` collects (removed classes, notes, provenance labels)."""
         n = self.n
         u = lambda *xs: set().union(*xs) if xs else set()
         if node is None:
@@ -497,10 +502,12 @@ class LangConv:
                 return set()
             t = self.lookup_var(scope, node.name)
             if t is not None:
+                self.via(log, t, f"var:{node.name}")
                 return set(t)
             if node.name in self.macros_visible.get(scope[0], {}):
                 return set()
             if node.name in GLOBALS:
+                self.via(log, GLOBALS[node.name], f"global:{node.name}")
                 return set(GLOBALS[node.name])
             if node.name.startswith(GLOBAL_PREFIXES):
                 return set()
@@ -522,11 +529,13 @@ class LangConv:
                     log["removed"] |= {PLATFORM}
                     log["notes"].append("platform_version holds only python_version when auditing is off (counted as tool version)")
                     c -= {PLATFORM}
+                self.via(log, c, f"global:nunavut.{attr}")
                 return base | c
             if attr in ATTRS:
                 add, rem = ATTRS[attr]
                 if rem & base:
                     log["removed"] |= (rem & base)
+                self.via(log, add, f"attr:{attr}")
                 return (base - rem) | add
             return base
         if isinstance(node, n.Call):
@@ -571,6 +580,7 @@ class LangConv:
             if PS_TPLCACHE in added:
                 removed |= {PS_TPLCACHE}
             eff_added = added - removed
+            self.via(log, eff_added, f"filter:{short}")
             got_removed = (removed & (base | added))
             if got_removed:
                 log["removed"] |= got_removed
@@ -582,6 +592,7 @@ class LangConv:
             args = u(*[self.cls(a, scope, kind, log) for a in node.args], *[self.cls(k.value, scope, kind, log) for k in node.kwargs])
             added, removed, notes, where = self.classify_callable(kind, "tests", node.name, self.envs[kind].tests, "test")
             added = set(added) - {PS_MEMO}
+            self.via(log, added, f"test:{node.name}")
             return base | args | added
         if isinstance(node, n.CondExpr):
             if self.is_audit(node.test):
@@ -599,7 +610,7 @@ class LangConv:
         raise TieBroken(f"{self.lang}:{scope[0]}: expression node {type(node).__name__} is not expressible")
 
     def leaf(self, node, scope, kind, role, extra=()):
-        log = {"removed": set(), "notes": []}
+        log = {"removed": set(), "notes": [], "via": {}}
         eff = self.cls(node, scope, kind, log)
         for e in extra:
             eff |= self.cls(e, scope, kind, log)
@@ -607,7 +618,8 @@ class LangConv:
         self.leaves.append({"id": lid, "lang": self.lang, "kind": kind, "file": scope[0], "macro": scope[1],
                             "line": getattr(node, "lineno", 0), "role": role,
                             "reads": sorted(eff | log["removed"]), "removes": sorted(log["removed"] - eff),
-                            "effective": sorted(eff), "notes": log["notes"][:6]})
+                            "effective": sorted(eff), "notes": log["notes"][:6],
+                            "via": {c: sorted(log["via"].get(c, ())) for c in sorted(eff)}})
         return ("leaf", lid)
 
     # ---- statements --------------------------------------------------------------------------------------------------
@@ -975,7 +987,7 @@ class LangConv:
         walk(tree, (name, None))
 
     def safe_cls(self, node, scope, kind):
-        return self.cls(node, scope, kind, {"removed": set(), "notes": []})
+        return self.cls(node, scope, kind, {"removed": set(), "notes": [], "via": {}})
 
     def bind_macro_params(self):
         """Macro parameters take the union of the argument classes over all call sites (positional/keyword by name)."""
